@@ -290,7 +290,9 @@ def random_case(draw):
     if mode == "call":
         kinds = ["P"] * cnt[0]
         results = [draw(st.sampled_from([True, False, False])) for _ in range(cnt[0])]
-        return {"mode": mode, "tree": t, "kinds": kinds, "results": results}
+        # some elements add or remove an atom when called (like an exchange move would)
+        grow = [draw(st.sampled_from([0, 0, 0, 1, -1])) for _ in range(cnt[0])]
+        return {"mode": mode, "tree": t, "kinds": kinds, "results": results, "grow": grow}
     kinds = [draw(st.sampled_from(kinds_all)) for _ in range(cnt[0])]
     return {"mode": mode, "tree": t, "kinds": kinds}
 
@@ -333,21 +335,32 @@ def run_random(case):
 
         order = []
 
+        import types
+
+        from ase import Atoms
+
+        grow = case.get("grow") or [0] * len(kinds)
+
         class P(BaseMove):
-            def __init__(self, i, r):
+            def __init__(self, i, r, g):
                 super().__init__(Ball(0.1))
-                self.i, self.r = i, r
+                self.i, self.r, self.g = i, r, g
 
             def __call__(self, context):
                 order.append(self.i)
+                if self.g > 0:
+                    context.atoms.extend(Atoms("H", positions=[[0.0, 0.0, float(len(context.atoms))]]))
+                elif self.g < 0 and len(context.atoms) > 1:
+                    del context.atoms[-1]
                 return self.r
 
-        pool = {"P": [P(i, case["results"][i]) for i in range(len(kinds))]}
+        pool = {"P": [P(i, case["results"][i], grow[i]) for i in range(len(kinds))]}
+        ctx_obj = types.SimpleNamespace(atoms=Atoms("H3", positions=[[0, 0, 0], [1, 0, 0], [0, 1, 0]]), rng=None)
         # address by slot: evaluate() uses pool[kind][slot]
         obj, model = evaluate(t, kinds, pool)
         if type(obj) is not CompositeMove:
             return {"labels": ["call"], "nontrivial": True, "violation": {"kind": "type:CompositeMove", "detail": f"composite of generic moves has type {type(obj).__name__}"}}
-        got = obj(None)
+        got = obj(ctx_obj)
         want_order = [m.i for m in model]
         want = any(m.r for m in model)
         out = {"labels": ["call"], "nontrivial": len(model) >= 3, "key": "call|" + tree_str(t, kinds) + str(case["results"]), "violation": None}
